@@ -33,7 +33,7 @@ MonInit == [cfg |-> [assocs |-> <<>>], sc |-> "", viol |-> <<>>, out |-> NoOut,
             fin |-> {},          \* ids already completed
             up |-> FALSE, en |-> TRUE, pipe |-> FALSE,
             lout |-> [has |-> FALSE, t |-> 0]]   \* a link status request is outstanding
-V(m, reason, l, ctx) == [m EXCEPT !.viol = Append(@, Viol("C16", reason, l, m.sc, ctx))]
+V(m, reason, l, ctx) == [m EXCEPT !.viol = IF Len(@) >= 300 THEN @ ELSE Append(@, Viol("C16", reason, l, m.sc, ctx))]
 
 Quiet(cfg) == \A i \in 1..Len(cfg.assocs) : ~cfg.assocs[i].dis /\ ~cfg.assocs[i].integ /\ ~cfg.assocs[i].en
                                              /\ cfg.assocs[i].ka < 0 /\ cfg.assocs[i].tsync = ""
